@@ -20,6 +20,19 @@ Theorem c09_reference_form_insensitive_partial :
 Proof. exact reference_form_insensitive. Qed.
 Print Assumptions c09_reference_form_insensitive_partial.
 
+(* PARTIAL (type level).  Forgetting the reference form of every reference inside a type (`to_eoc`: what a trip
+   through the Cedar syntax does to entity / common references) commutes with name resolution, provided no
+   candidate name of a must-be-entity reference is a common type and no candidate of a must-be-common reference
+   is an entity type (`refs_free`).  Missing: primitives/extension types printed as `__cedar::T`, the context
+   position, the lifting through `conv` and the hierarchies, and the derivation of `refs_free` from the printer's
+   collision test (false for the empty namespace: c09_cedar_roundtrip_refuted). *)
+Theorem c09_reference_form_types_partial :
+  forall cdefs edefs ns t,
+    refs_free cdefs edefs ns t = true ->
+    qual_ty cdefs edefs ns (to_eoc t) = option_map to_eoc (qual_ty cdefs edefs ns t).
+Proof. exact qual_ty_to_eoc. Qed.
+Print Assumptions c09_reference_form_types_partial.
+
 (* PARTIAL.  Resolution does not depend on the order in which namespaces are declared: the definition sets,
    the builtin aliases, the RFC 70 verdicts and the resolution of every type reference are the same for a
    permuted fragment.  Missing: the order of declarations inside a namespace and the lifting to `resolve`
